@@ -1,7 +1,7 @@
 /-
   C17 — Response attributes truthfully report what was settled.
 -/
-import AtsProofs.C11
+import AtsProofs.C10
 import AtsProofs.Attrs
 namespace Ats.Proofs
 open Ats Ats.Spec
@@ -74,18 +74,435 @@ theorem C17_reverseAsk (env : Env) (s s' : State) (c : Call) (r : Response) (id 
     (cancel : Option Nat) (hs : sane s = true)
     (h : reverseAsk env s c.sender c.funds id action cancel = .ok (s', r)) :
     attr? r.attrs "action" = some action ∧ attr? r.attrs "id" = some id ∧
-    (match s.asks.get? id with
-      | some a => numAttr r.attrs "reverse_size" ==
-          some (a.size - (match s'.asks.get? id with | some a' => a'.size | none => 0))
-      | none => false) = true ∧
+    askReverseAttrOK s s' id r.attrs = true ∧
     attr? r.attrs "order_open" = some (if (s'.asks.get? id).isSome then "true" else "false") := by
   obtain ⟨a, _, _, ha, _, hle, _, _, rfl, rfl⟩ := reverseAsk_ok h
   have hid := (sane_ask_facts hs ha).id_eq
-  simp only [ha, hid, putAsk_get_eq, reduce_size, openFlag_eq]
+  simp only [askReverseAttrOK, ha, hid, askSizeAt, putAsk_get_eq, reduce_size, openFlag_eq]
   have hss : a.size - (a.size - cancel.getD a.size) = cancel.getD a.size := Nat.sub_sub_self hle
   by_cases h0 : a.size - cancel.getD a.size = 0
   · have : cancel.getD a.size = a.size := by omega
     simp [attr_cons_eq, attr_cons_ne, numAttr_cons_ne, h0, this]
   · simp [attr_cons_eq, attr_cons_ne, numAttr_cons_ne, h0, reduce_size, hss]
+
+theorem C17_reverseBid (env : Env) (s s' : State) (c : Call) (r : Response) (id action : String)
+    (cancel : Option Nat) (hs : sane s = true)
+    (h : reverseBid env s c.sender c.funds id action cancel = .ok (s', r)) :
+    attr? r.attrs "action" = some action ∧ attr? r.attrs "id" = some id ∧
+    bidReverseAttrOK s s' id r.attrs = true ∧
+    attr? r.attrs "order_open" = some (if (s'.bids.get? id).isSome then "true" else "false") := by
+  obtain ⟨b, p, tq, effQuote, effFee, _, hb, _, _, _, hle, _, _, _, _, _, _, rfl, rfl⟩ := reverseBid_ok h
+  have hid := (sane_bid_v3 hs hb).id_eq
+  have hg := loadBid_some.mp hb
+  simp only [bidReverseAttrOK, bidRemAt, loadBid, hg, hid, putBid_get_eq, openFlag_eq]
+  simp only [Bid.remBase] at hle ⊢
+  by_cases h0 : b.base.amount - (b.accBase + cancel.getD (b.base.amount - b.accBase)) = 0
+  · have : cancel.getD (b.base.amount - b.accBase) = b.base.amount - b.accBase := by omega
+    simp only [this] at h0 ⊢
+    simp [attr_cons_eq, attr_cons_ne, numAttr_cons_ne, Bid.accumulate, h0]
+  · have hss : b.base.amount - b.accBase - (b.base.amount - (b.accBase + cancel.getD (b.base.amount - b.accBase))) =
+        cancel.getD (b.base.amount - b.accBase) := by omega
+    simp [attr_cons_eq, attr_cons_ne, numAttr_cons_ne, Bid.accumulate, h0, hss]
+
+theorem eqv_refl (p : Dec) : Dec.eqv p p = true := by simp [Dec.eqv]
+
+theorem C17_match (env : Env) (s s' : State) (c : Call) (r : Response)
+    (askId bidId price : String) (size : Nat) (hs : sane s = true)
+    (hm : c.msg = .executeMatch askId bidId price size)
+    (hx : ∀ b, loadBid s bidId = some b → ExactMatch s b price size)
+    (h : executeMatch env s c.sender c.funds askId bidId price size = .ok (s', r)) :
+    C17_attrsOK s c r s' = true := by
+  obtain ⟨a, b, askP, bidP, execP, grossD, gross, askFee, bidFee, m2, m3, rp, _, _, ha, hb, _,
+    hap, hbp, hep, hpr, hab, hsa, hsb, hg, hfr, hgu, haf, _, hbf, _, _, hrp, rfl, rfl⟩ := executeMatch_ok h
+  have hfa := sane_ask_facts hs ha
+  have hfb := sane_bid_v3 hs hb
+  obtain ⟨bp', hbp', hbpz, hbpn, _⟩ := priceOK_parse hfb.price_ok
+  rw [hbp] at hbp'; cases hbp'
+  obtain ⟨ap', hap', hapz, hapn, _⟩ := priceOK_parse hfa.price_ok
+  rw [hap] at hap'; cases hap'
+  have hepn : execP.neg = false := by
+    rcases priceRule_ok.mp hpr with ⟨_, he | he⟩ | ⟨_, _, he⟩
+    · exact eqv_pos_neg hapn hapz he
+    · exact eqv_pos_neg hbpn hbpz he
+    · exact eqv_pos_neg hapn hapz he
+  obtain ⟨refund, feeRefund, hma, hrpe, _⟩ :=
+    matchAmounts_model (a := a) (by rw [hfb.id_eq]; exact hfb) (hx b hb) hep hbp hepn hbpn hg hfr hgu haf hbf hrp
+  have hrp2 : rp.2 = (b.accumulate size gross bidFee).accumulate 0 refund feeRefund := by rw [hrpe]
+  have hg' := loadBid_some.mp hb
+  unfold C17_attrsOK
+  simp only [hm, actionName, ha, hb, hma]
+  have hprice : priceAttrEq [("action", "execute"), ("ask_id", askId), ("bid_id", bidId), ("base", b.base.denom),
+      ("quote", a.quote), ("price", price), ("size", toString size), ("ask_fee", toString askFee),
+      ("bid_fee", toString bidFee)] price = true := by
+    simp [priceAttrEq, attr_cons_eq, attr_cons_ne, hep, eqv_refl]
+  have e1 : a.size - askSizeAt { s with asks := putAsk s.asks askId (a.reduce size), bids := putBid s.bids bidId rp.2 } askId = size := by
+    simp only [askSizeAt, putAsk_get_eq]
+    by_cases h0 : (a.reduce size).size = 0
+    · simp only [h0, if_true]; simp only [Ask.reduce] at h0; omega
+    · simp only [h0, if_false]; simp only [Ask.reduce] at h0 ⊢; omega
+  have e2 : b.remBase - bidRemAt { s with asks := putAsk s.asks askId (a.reduce size), bids := putBid s.bids bidId rp.2 } bidId = size := by
+    simp only [bidRemAt, loadBid, putBid_get_eq, hrp2, Bid.accumulate, Nat.add_zero]
+    simp only [Bid.remBase] at hsb ⊢
+    by_cases h0 : b.base.amount - (b.accBase + size) = 0
+    · simp only [h0, if_true]; omega
+    · simp only [h0, if_false]; omega
+  simp only [hprice, e1, e2]
+  simp [attr_cons_eq, attr_cons_ne, numAttr_cons_ne]
+
+/-- C17: the attributes of every accepted response are truthful – the action name and the
+    id(s); for reversals the reversed size actually returned and whether the order is still on
+    the book; for a match the size, the execution price (as a number) and the fees actually
+    paid; for create and approve the recorded price, size and class -/
+theorem C17_truthful (env : Env) (s s' : State) (c : Call) (r : Response)
+    (hs : sane s = true) (hx : ExactStep s c.msg)
+    (h : execute env s c = .ok (s', r)) : C17_attrsOK s c r s' = true := by
+  unfold execute at h
+  simp only [Res.bind_eq_ok, guardR_eq_ok] at h
+  obtain ⟨_, _, h⟩ := h
+  cases hm : c.msg <;> simp only [hm] at h hx
+  case createAsk id base quote price size => exact C17_createAsk env s s' c r id base quote price size hm h
+  case createBid id base fee price quote qs size => exact C17_createBid env s s' c r id base fee price quote qs size hm h
+  case approveAsk id base size => exact C17_approve env s s' c r id base size hs hm h
+  case cancelAsk id => exact C17_cancelAsk env s s' c r id hs hm h
+  case executeMatch a b p sz => exact C17_match env s s' c r a b p sz hs hm hx h
+  case expireAsk id =>
+    obtain ⟨h1, h2, h3, h4⟩ := C17_reverseAsk env s s' c r id _ none hs h
+    unfold C17_attrsOK; simp only [hm, actionName, h1, h2, h3, h4]; simp
+  case rejectAsk id sz =>
+    obtain ⟨h1, h2, h3, h4⟩ := C17_reverseAsk env s s' c r id _ sz hs h
+    unfold C17_attrsOK; simp only [hm, actionName, h1, h2, h3, h4]; simp
+  case cancelBid id =>
+    obtain ⟨h1, h2, h3, h4⟩ := C17_reverseBid env s s' c r id _ none hs h
+    unfold C17_attrsOK; simp only [hm, actionName, h1, h2, h3, h4]; simp
+  case expireBid id =>
+    obtain ⟨h1, h2, h3, h4⟩ := C17_reverseBid env s s' c r id _ none hs h
+    unfold C17_attrsOK; simp only [hm, actionName, h1, h2, h3, h4]; simp
+  case rejectBid id sz =>
+    obtain ⟨h1, h2, h3, h4⟩ := C17_reverseBid env s s' c r id _ sz hs h
+    unfold C17_attrsOK; simp only [hm, actionName, h1, h2, h3, h4]; simp
+  case modify =>
+    obtain ⟨_, _, _, _, _, _, _, _, _, _, _, _, _, hr⟩ := modifyContract_ok h
+    unfold C17_attrsOK; simp [hm, actionName, hr, attr_cons_eq]
+
+end Ats.Proofs
+
+namespace Ats.Proofs
+open Ats Ats.Spec
+
+/-- the shadow book equals the projection of the real book, key by key -/
+structure ShadowRel (sh : Shadow) (s : State) : Prop where
+  asks : ∀ k, Book.get? sh.asks k = (s.asks.get? k).map askProj
+  bids : ∀ k, Book.get? sh.bids k = (s.bids.get? k).bind bidProj
+
+theorem shadowOK_of_rel {sh : Shadow} {s : State} (h : ShadowRel sh s) : C17_shadowOK sh s = true := by
+  unfold C17_shadowOK
+  simp only [Bool.and_eq_true, List.all_eq_true, beq_iff_eq]
+  exact ⟨fun k _ => h.asks k, fun k _ => h.bids k⟩
+
+theorem shadowRel_init (env : Env) (m : InstMsg) (s : State) (r : Response)
+    (h : instantiate env m = .ok (s, r)) : ShadowRel ⟨[], []⟩ s := by
+  unfold instantiate at h
+  simp only [Res.bind_eq_ok, guardR_eq_ok, validAddrs_ok, Res.pure_eq, Res.ok.injEq, Prod.mk.injEq] at h
+  obtain ⟨_, _, _, _, _, _, _, _, _, _, _, _, rfl, _⟩ := h
+  exact ⟨fun k => rfl, fun k => rfl⟩
+
+end Ats.Proofs
+
+namespace Ats.Proofs
+open Ats Ats.Spec
+
+theorem rel_setAsk {sh : Shadow} {s : State} (k : String) (a : Ask) (h : ShadowRel sh s) :
+    ShadowRel (sh.setAsk k (askProj a)) { s with asks := s.asks.set k a } := by
+  refine ⟨fun k2 => ?_, h.bids⟩
+  simp only [Shadow.setAsk]
+  by_cases hk : k2 = k
+  · subst hk; rw [Book.get?_set_eq, Book.get?_set_eq]; rfl
+  · rw [Book.get?_set_ne _ _ _ _ hk, Book.get?_set_ne _ _ _ _ hk]; exact h.asks k2
+
+theorem rel_delAsk {sh : Shadow} {s : State} (k : String) (h : ShadowRel sh s) :
+    ShadowRel { sh with asks := Book.del sh.asks k } { s with asks := s.asks.del k } := by
+  refine ⟨fun k2 => ?_, h.bids⟩
+  by_cases hk : k2 = k
+  · subst hk; simp only [Book.get?_del_eq]; rfl
+  · simp only [Book.get?_del_ne _ _ _ hk]; exact h.asks k2
+
+theorem rel_setBid {sh : Shadow} {s : State} (k : String) (b : Bid) (h : ShadowRel sh s) :
+    ShadowRel (sh.setBid k b.remBase) { s with bids := s.bids.set k (.v3 b) } := by
+  refine ⟨h.asks, fun k2 => ?_⟩
+  simp only [Shadow.setBid]
+  by_cases hk : k2 = k
+  · subst hk; rw [Book.get?_set_eq, Book.get?_set_eq]; rfl
+  · rw [Book.get?_set_ne _ _ _ _ hk, Book.get?_set_ne _ _ _ _ hk]; exact h.bids k2
+
+theorem rel_delBid {sh : Shadow} {s : State} (k : String) (h : ShadowRel sh s) :
+    ShadowRel { sh with bids := Book.del sh.bids k } { s with bids := s.bids.del k } := by
+  refine ⟨h.asks, fun k2 => ?_⟩
+  by_cases hk : k2 = k
+  · subst hk; simp only [Book.get?_del_eq]; rfl
+  · simp only [Book.get?_del_ne _ _ _ hk]; exact h.bids k2
+
+theorem classOfJson_basic : classOfJson (classJson .basic) = .basic := by decide
+theorem classOfJson_pending : classOfJson (classJson .pending) = .pending := by decide
+
+theorem C17_shadow_createAsk (env : Env) (s s' : State) (c : Call) (r : Response) (sh : Shadow)
+    (id base quote price : String) (size : Nat) (hrel : ShadowRel sh s)
+    (h : createAsk env s c.sender c.funds id base quote price size = .ok (s', r)) :
+    ShadowRel (shadowStep sh r.attrs) s' := by
+  obtain ⟨_, _, _, _, _, _, _, _, _, rfl, _, hr⟩ := createAsk_ok h
+  rw [hr]
+  have : shadowStep sh [("action", "create_ask"), ("id", id),
+      ("class", classJson (if (base != s.info.baseDenom) = true then AskClass.pending else AskClass.basic)),
+      ("target_base", s.info.baseDenom), ("base", base), ("quote", quote), ("price", price),
+      ("size", toString size)] =
+      sh.setAsk id (askProj ⟨id, c.sender, if (base != s.info.baseDenom) = true then .pending else .basic,
+        base, quote, price, size⟩) := by
+    unfold shadowStep
+    simp only [attr_cons_eq, attr_cons_ne, numAttr_cons_ne, numAttr_cons_eq, ne_eq, String.reduceEq,
+      not_false_eq_true, not_true_eq_false, Option.getD_some, askProj]
+    by_cases hb : (base != s.info.baseDenom) = true <;> simp [hb, classOfJson_basic, classOfJson_pending, shadowCls]
+  rw [this]
+  exact rel_setAsk id _ hrel
+
+end Ats.Proofs
+
+namespace Ats.Proofs
+open Ats Ats.Spec
+
+theorem C17_shadow_createBid (env : Env) (s s' : State) (c : Call) (r : Response) (sh : Shadow)
+    (id base : String) (fee : Option Coin) (price quote : String) (qs size : Nat) (hrel : ShadowRel sh s)
+    (h : createBid env s c.sender c.funds id base fee price quote qs size = .ok (s', r)) :
+    ShadowRel (shadowStep sh r.attrs) s' := by
+  obtain ⟨_, _, _, _, _, _, _, _, _, _, _, _, _, _, _, _, _, _, _, _, rfl, rfl⟩ := createBid_ok h
+  have : shadowStep sh [("action", "create_bid"), ("base", base), ("id", id), ("price", price),
+      ("quote", quote), ("quote_size", toString qs), ("size", toString size)] = sh.setBid id size := by
+    unfold shadowStep
+    simp only [attr_cons_eq, attr_cons_ne, numAttr_cons_ne, numAttr_cons_eq, ne_eq, String.reduceEq,
+      not_false_eq_true, not_true_eq_false, Option.getD_some]
+  simp only [this]
+  have hb := rel_setBid id ⟨⟨base, size⟩, 0, 0, 0, fee, id, c.sender, price, ⟨quote, qs⟩⟩ hrel
+  simpa [Bid.remBase] using hb
+
+theorem C17_shadow_approve (env : Env) (s s' : State) (c : Call) (r : Response) (sh : Shadow)
+    (id base : String) (size : Nat) (hs : sane s = true) (hrel : ShadowRel sh s)
+    (h : approveAsk env s c.sender c.funds id base size = .ok (s', r)) :
+    ShadowRel (shadowStep sh r.attrs) s' := by
+  obtain ⟨a, _, _, ha, hp, _, _, _, rfl, rfl⟩ := approveAsk_ok h
+  have hid := (sane_ask_facts hs ha).id_eq
+  have hsh : Book.get? sh.asks id = some (a.size, .pending) := by
+    rw [hrel.asks id, ha]; simp [askProj, shadowCls, hp]
+  have : shadowStep sh [("action", "approve_ask"), ("id", a.id),
+      ("class", classJson (.ready c.sender ⟨base, size⟩)), ("quote", a.quote), ("price", a.price),
+      ("size", toString a.size)] = sh.setAsk id (a.size, .ready) := by
+    unfold shadowStep
+    simp only [attr_cons_eq, attr_cons_ne, numAttr_cons_ne, numAttr_cons_eq, ne_eq, String.reduceEq,
+      not_false_eq_true, not_true_eq_false, Option.getD_some, hid, hsh]
+  simp only [this]
+  have := rel_setAsk id { a with cls := .ready c.sender ⟨base, size⟩ } hrel
+  simpa [askProj, shadowCls] using this
+
+theorem C17_shadow_cancelAsk (env : Env) (s s' : State) (c : Call) (r : Response) (sh : Shadow)
+    (id : String) (hs : sane s = true) (hrel : ShadowRel sh s)
+    (h : cancelAsk env s c.sender c.funds id = .ok (s', r)) :
+    ShadowRel (shadowStep sh r.attrs) s' := by
+  obtain ⟨a, _, ha, _, _, _, rfl, rfl⟩ := cancelAsk_ok h
+  have hid := (sane_ask_facts hs ha).id_eq
+  have : shadowStep sh [("action", "cancel_ask"), ("id", a.id)] = { sh with asks := Book.del sh.asks id } := by
+    unfold shadowStep
+    simp only [attr_cons_eq, attr_cons_ne, ne_eq, String.reduceEq, not_false_eq_true, Option.getD_some, hid]
+  simp only [this, hid]
+  exact rel_delAsk id hrel
+
+theorem C17_shadow_reverseAsk (env : Env) (s s' : State) (c : Call) (r : Response) (sh : Shadow)
+    (id action : String) (cancel : Option Nat) (hs : sane s = true) (hrel : ShadowRel sh s)
+    (hact : action = "expire_ask" ∨ action = "reject_ask")
+    (h : reverseAsk env s c.sender c.funds id action cancel = .ok (s', r)) :
+    ShadowRel (shadowStep sh r.attrs) s' := by
+  obtain ⟨a, _, _, ha, _, hle, _, _, rfl, rfl⟩ := reverseAsk_ok h
+  have hid := (sane_ask_facts hs ha).id_eq
+  have hsh : Book.get? sh.asks id = some (a.size, shadowCls a.cls) := by
+    rw [hrel.asks id, ha]; rfl
+  have hcls : shadowCls (a.reduce (cancel.getD a.size)).cls = shadowCls a.cls := by
+    unfold Ask.reduce; cases a.cls <;> rfl
+  have : shadowStep sh [("action", action), ("id", id), ("reverse_size", toString (cancel.getD a.size)),
+      ("order_open", openFlag ((a.reduce (cancel.getD a.size)).size != 0))] =
+      (if (a.reduce (cancel.getD a.size)).size = 0 then { sh with asks := Book.del sh.asks id }
+       else sh.setAsk id (askProj (a.reduce (cancel.getD a.size)))) := by
+    unfold shadowStep
+    rcases hact with rfl | rfl <;>
+    · simp only [attr_cons_eq, attr_cons_ne, numAttr_cons_ne, numAttr_cons_eq, ne_eq, String.reduceEq,
+        not_false_eq_true, not_true_eq_false, Option.getD_some, hsh, openFlag_eq, numAttr, attr?]
+      by_cases h0 : (a.reduce (cancel.getD a.size)).size = 0
+      · simp [h0, hsh]
+      · simp [h0, hsh, askProj, hcls, reduce_size]
+  simp only [this, hid]
+  unfold putAsk
+  by_cases h0 : (a.reduce (cancel.getD a.size)).size = 0
+  · simp only [h0, if_true, beq_self_eq_true]; exact rel_delAsk id hrel
+  · simp only [h0, if_false, beq_iff_eq]; exact rel_setAsk id _ hrel
+
+end Ats.Proofs
+
+namespace Ats.Proofs
+open Ats Ats.Spec
+
+theorem C17_shadow_reverseBid (env : Env) (s s' : State) (c : Call) (r : Response) (sh : Shadow)
+    (id action : String) (cancel : Option Nat) (hs : sane s = true) (hrel : ShadowRel sh s)
+    (hact : action = "cancel_bid" ∨ action = "expire_bid" ∨ action = "reject_bid")
+    (h : reverseBid env s c.sender c.funds id action cancel = .ok (s', r)) :
+    ShadowRel (shadowStep sh r.attrs) s' := by
+  obtain ⟨b, p, tq, effQuote, effFee, _, hb, _, _, _, hle, _, _, _, _, _, _, rfl, rfl⟩ := reverseBid_ok h
+  have hid := (sane_bid_v3 hs hb).id_eq
+  have hsh : Book.get? sh.bids id = some b.remBase := by
+    rw [hrel.bids id, loadBid_some.mp hb]; rfl
+  let b' := b.accumulate (cancel.getD b.remBase) effQuote (effFee.getD 0)
+  have hrem : b'.remBase = b.remBase - cancel.getD b.remBase := by
+    simp [b', Bid.accumulate, Bid.remBase, Nat.sub_sub]
+  have hkeep : (b'.base.amount - b'.accBase = 0) ↔ (b.remBase - cancel.getD b.remBase = 0) := by
+    rw [← hrem]; rfl
+  have : shadowStep sh [("action", action), ("id", id), ("reverse_size", toString (cancel.getD b.remBase)),
+      ("order_open", openFlag (b.base.amount - (b.accBase + cancel.getD b.remBase) != 0))] =
+      (if b.remBase - cancel.getD b.remBase = 0 then { sh with bids := Book.del sh.bids id }
+       else sh.setBid id (b.remBase - cancel.getD b.remBase)) := by
+    have e : b.base.amount - (b.accBase + cancel.getD b.remBase) = b.remBase - cancel.getD b.remBase := by
+      simp [Bid.remBase, Nat.sub_sub]
+    unfold shadowStep
+    rcases hact with rfl | rfl | rfl <;>
+    · simp only [attr_cons_eq, attr_cons_ne, numAttr_cons_ne, numAttr_cons_eq, ne_eq, String.reduceEq,
+        not_false_eq_true, not_true_eq_false, Option.getD_some, hsh, openFlag_eq, numAttr, attr?, e]
+      by_cases h0 : b.remBase - cancel.getD b.remBase = 0
+      · simp [h0, hsh]
+      · simp [h0, hsh]
+  simp only [this, hid]
+  unfold putBid
+  by_cases h0 : b.remBase - cancel.getD b.remBase = 0
+  · have : b'.base.amount - b'.accBase = 0 := hkeep.mpr h0
+    simp only [b'] at this
+    simp only [h0, this, if_true, beq_self_eq_true]; exact rel_delBid id hrel
+  · have hne : ¬ (b'.base.amount - b'.accBase = 0) := fun hx => h0 (hkeep.mp hx)
+    simp only [b'] at hne
+    simp only [h0, hne, if_false, beq_iff_eq]
+    have := rel_setBid id b' hrel
+    rw [hrem] at this
+    exact this
+
+theorem C17_shadow_match (env : Env) (s s' : State) (c : Call) (r : Response) (sh : Shadow)
+    (askId bidId price : String) (size : Nat) (hs : sane s = true) (hrel : ShadowRel sh s)
+    (hx : ∀ b, loadBid s bidId = some b → ExactMatch s b price size)
+    (h : executeMatch env s c.sender c.funds askId bidId price size = .ok (s', r)) :
+    ShadowRel (shadowStep sh r.attrs) s' := by
+  obtain ⟨a, b, askP, bidP, execP, grossD, gross, askFee, bidFee, m2, m3, rp, _, _, ha, hb, _,
+    hap, hbp, hep, hpr, hab, hsa, hsb, hg, hfr, hgu, haf, _, hbf, _, _, hrp, rfl, rfl⟩ := executeMatch_ok h
+  have hfa := sane_ask_facts hs ha
+  have hfb := sane_bid_v3 hs hb
+  obtain ⟨bp', hbp', hbpz, hbpn, _⟩ := priceOK_parse hfb.price_ok
+  rw [hbp] at hbp'; cases hbp'
+  obtain ⟨ap', hap', hapz, hapn, _⟩ := priceOK_parse hfa.price_ok
+  rw [hap] at hap'; cases hap'
+  have hepn : execP.neg = false := by
+    rcases priceRule_ok.mp hpr with ⟨_, he | he⟩ | ⟨_, _, he⟩
+    · exact eqv_pos_neg hapn hapz he
+    · exact eqv_pos_neg hbpn hbpz he
+    · exact eqv_pos_neg hapn hapz he
+  obtain ⟨refund, feeRefund, _, hrpe, _⟩ :=
+    matchAmounts_model (a := a) (by rw [hfb.id_eq]; exact hfb) (hx b hb) hep hbp hepn hbpn hg hfr hgu haf hbf hrp
+  have hrp2 : rp.2 = (b.accumulate size gross bidFee).accumulate 0 refund feeRefund := by rw [hrpe]
+  have hsha : Book.get? sh.asks askId = some (a.size, shadowCls a.cls) := by
+    rw [hrel.asks askId, ha]; rfl
+  have hshb : Book.get? sh.bids bidId = some b.remBase := by
+    rw [hrel.bids bidId, loadBid_some.mp hb]; rfl
+  have hcls : shadowCls (a.reduce size).cls = shadowCls a.cls := by
+    unfold Ask.reduce; cases a.cls <;> rfl
+  have hremb : rp.2.remBase = b.remBase - size := by
+    rw [hrp2]; simp [Bid.accumulate, Bid.remBase, Nat.sub_sub]
+  -- the shadow after the ask part
+  let sh1 : Shadow := if a.size - size = 0 then { sh with asks := Book.del sh.asks askId }
+                      else sh.setAsk askId (a.size - size, shadowCls a.cls)
+  have hsh1b : Book.get? sh1.bids bidId = some b.remBase := by
+    simp only [sh1]; split <;> simpa [Shadow.setAsk] using hshb
+  have : shadowStep sh [("action", "execute"), ("ask_id", askId), ("bid_id", bidId), ("base", b.base.denom),
+      ("quote", a.quote), ("price", price), ("size", toString size), ("ask_fee", toString askFee),
+      ("bid_fee", toString bidFee)] =
+      (if b.remBase - size = 0 then { sh1 with bids := Book.del sh1.bids bidId }
+       else sh1.setBid bidId (b.remBase - size)) := by
+    unfold shadowStep
+    simp only [attr_cons_eq, attr_cons_ne, numAttr_cons_ne, numAttr_cons_eq, ne_eq, String.reduceEq,
+      not_false_eq_true, not_true_eq_false, Option.getD_some, hsha]
+    by_cases h0 : a.size - size = 0
+    · simp only [sh1, h0, if_true] at hsh1b ⊢
+      simp only [hsh1b]
+    · simp only [sh1, h0, if_false] at hsh1b ⊢
+      simp only [hsh1b]
+  simp only [this]
+  -- relate step by step
+  have hrel1 : ShadowRel sh1 { s with asks := putAsk s.asks askId (a.reduce size) } := by
+    simp only [sh1]
+    unfold putAsk
+    by_cases h0 : a.size - size = 0
+    · have : (a.reduce size).size = 0 := h0
+      simp only [h0, this, if_true, beq_self_eq_true]; exact rel_delAsk askId hrel
+    · have : ¬ (a.reduce size).size = 0 := h0
+      simp only [h0, this, if_false, beq_iff_eq]
+      have := rel_setAsk askId (a.reduce size) hrel
+      simpa [askProj, hcls, reduce_size] using this
+  unfold putBid
+  by_cases h0 : b.remBase - size = 0
+  · have : rp.2.base.amount - rp.2.accBase = 0 := by rw [← hremb] at h0; exact h0
+    simp only [h0, this, if_true, beq_self_eq_true]
+    exact rel_delBid bidId hrel1
+  · have hne : ¬ (rp.2.base.amount - rp.2.accBase = 0) := by rw [← hremb] at h0; exact h0
+    simp only [h0, hne, if_false, beq_iff_eq]
+    have := rel_setBid bidId rp.2 hrel1
+    rw [hremb] at this
+    exact this
+
+/-- C17 shadow book: an off-chain record of which orders are open, their remaining sizes and
+    approval state, updated from the response attributes alone, is after every accepted request
+    again the projection of the on-chain book -/
+theorem C17_shadow_step (env : Env) (s s' : State) (c : Call) (r : Response) (sh : Shadow)
+    (hs : sane s = true) (hx : ExactStep s c.msg) (hrel : ShadowRel sh s)
+    (h : execute env s c = .ok (s', r)) : ShadowRel (shadowStep sh r.attrs) s' := by
+  unfold execute at h
+  simp only [Res.bind_eq_ok, guardR_eq_ok] at h
+  obtain ⟨_, _, h⟩ := h
+  cases hm : c.msg <;> simp only [hm] at h hx
+  case createAsk id base quote price size => exact C17_shadow_createAsk env s s' c r sh id base quote price size hrel h
+  case createBid id base fee price quote qs size =>
+    exact C17_shadow_createBid env s s' c r sh id base fee price quote qs size hrel h
+  case approveAsk id base size => exact C17_shadow_approve env s s' c r sh id base size hs hrel h
+  case cancelAsk id => exact C17_shadow_cancelAsk env s s' c r sh id hs hrel h
+  case executeMatch a b p sz => exact C17_shadow_match env s s' c r sh a b p sz hs hrel hx h
+  case expireAsk id => exact C17_shadow_reverseAsk env s s' c r sh id _ none hs hrel (Or.inl rfl) h
+  case rejectAsk id sz => exact C17_shadow_reverseAsk env s s' c r sh id _ sz hs hrel (Or.inr rfl) h
+  case cancelBid id => exact C17_shadow_reverseBid env s s' c r sh id _ none hs hrel (Or.inl rfl) h
+  case expireBid id => exact C17_shadow_reverseBid env s s' c r sh id _ none hs hrel (Or.inr (Or.inl rfl)) h
+  case rejectBid id sz => exact C17_shadow_reverseBid env s s' c r sh id _ sz hs hrel (Or.inr (Or.inr rfl)) h
+  case modify =>
+    obtain ⟨_, _, _, _, _, _, _, _, _, _, _, _, rfl, rfl⟩ := modifyContract_ok h
+    have : shadowStep sh [("action", "modify_contract")] = sh := by
+      unfold shadowStep
+      simp [attr_cons_eq]
+    rw [this]
+    exact ⟨hrel.asks, hrel.bids⟩
+
+/-- … and so along every history from instantiation (the shadow starts empty) -/
+theorem C17_shadow_history (s : State) (L : Ledger) (sh : Shadow) (hist : List (Env × Call))
+    (hs : sane s = true) (hrel : ShadowRel sh s) (hg : GoodHist s hist) :
+    ∃ sh', ShadowRel sh' (runHist s L hist).1 := by
+  induction hist generalizing s L sh with
+  | nil => exact ⟨sh, hrel⟩
+  | cons ec t ih =>
+    obtain ⟨env, c⟩ := ec
+    unfold runHist
+    unfold GoodHist at hg
+    cases hx : execute env s c with
+    | err e =>
+      simp only [hx] at hg ⊢
+      exact ih s L sh hs hrel hg
+    | ok p =>
+      obtain ⟨s', r⟩ := p
+      simp only [hx] at hg ⊢
+      obtain ⟨⟨hex, _, _⟩, hgt⟩ := hg
+      exact ih s' _ (shadowStep sh r.attrs) (Sane_step env s s' c r hs hex hx)
+        (C17_shadow_step env s s' c r sh hs hex hrel hx) hgt
 
 end Ats.Proofs
